@@ -37,6 +37,8 @@ def _js_value(heap, v):
         return json.dumps(v["s"])
     if k == "num":
         return str(v["i"])
+    if k == "bool":
+        return "true" if v["b"] else "false"
     if k == "arr":
         return '["e0", "e1"]'
     if k == "obj":
@@ -87,6 +89,8 @@ def render_stmt(s, heap):
         return "var %s;" % s["n"]
     if t == "set":
         return "%s = %s;" % (s["n"], render_expr(s["e"], heap))
+    if t == "if":
+        return "if (%s) { %s }" % (render_expr(s["c"], heap), " ".join(render_stmt(x, heap) for x in s["ss"]))
     if t in ("fun", "funx"):
         inner = " ".join([render_stmt(x, heap) for x in s["ss"]] + ["return %s;" % render_expr(s["r"], heap)])
         if t == "fun":
@@ -162,6 +166,39 @@ def raise_features(e):
                    if n["t"] == "idx" and n["k"]["t"] != "str" and n["o"]["t"] == "id"})
 
 
+def _root_name(e):
+    while e["t"] in ("dot", "idx", "par"):
+        e = e["o"] if e["t"] != "par" else e["e"]
+    return e.get("n") if e["t"] == "id" else None
+
+
+def rebinding_features(e):
+    """How an alias of inputs is assigned again: (kind of right-hand side):(where)."""
+    feats = set()
+
+    def stmts(ss, where):
+        for st in ss:
+            t = st["t"]
+            if t == "set" and not (st["e"]["t"] == "id" and st["e"]["n"] == "inputs"):
+                rhs = st["e"]
+                if rhs["t"] in ("dot", "idx") and _root_name(rhs) == st["n"]:
+                    kind = "member-of-itself"
+                elif rhs["t"] == "id":
+                    kind = "identifier"
+                else:
+                    kind = "literal"
+                feats.add("alias-rebound-from-%s:%s" % (kind, where))
+            elif t == "if":
+                stmts(st["ss"], "under-condition" if where == "unconditional" else where)
+            elif t in ("fun", "funx"):
+                stmts(st["ss"], "inside-function-declaration" if t == "fun" else "inside-function-expression")
+
+    for part in ([e["a"], e["b"]] if e["t"] == "tmpl" else [e]):
+        if part["t"] == "body":
+            stmts(part["ss"], "unconditional")
+    return sorted(feats)
+
+
 # ------------------------------------------------------------------------------------------------
 # oracle: node, one process for the whole batch
 # ------------------------------------------------------------------------------------------------
@@ -179,6 +216,7 @@ function val(heap, v) {
   switch (v.v) {
     case 'str': return v.s;
     case 'num': return v.i;
+    case 'bool': return v.b;
     case 'arr': return ['e0', 'e1'];
     case 'obj': return build(heap, v.id);
   }
@@ -267,9 +305,16 @@ def _resolve_one(job):
 
 
 def resolve_all(jobs):
-    n = int(os.environ.get("VERIF_PROCS", "0") or 0) or min(16, os.cpu_count() or 1)
+    # sequential by default: on the shared build machine a fork pool gave no speed-up at all (a pure CPU loop on 16
+    # processes ran no faster than on one) and tripled the system time; VERIF_PROCS=n opts in to a pool
+    n = int(os.environ.get("VERIF_PROCS", "0") or 0) or 1
     if n <= 1 or len(jobs) < 16:
         return [_resolve_one(j) for j in jobs]
+    # import the package and warm ANTLR's lazily built prediction tables ONCE, before forking (the children inherit
+    # both; importing in every child costs seconds each: no .pyc files are written under PYTHONDONTWRITEBYTECODE)
+    for warm in ("${ var a; a = self; function g(x) { return x['f'].g + \"s\"; } if (a) { a = {k: [1]}; } return g(a); }",
+                 "$(self.f + self[\"g\"])"):
+        _resolve_one((warm, True, None))
     mp = multiprocessing.get_context("fork")
     with mp.Pool(n) as pool:
         return pool.map(_resolve_one, jobs, chunksize=max(1, len(jobs) // (n * 8)))
@@ -287,6 +332,8 @@ def missed_signatures(case, syntax, missing):
         vias = sorted({s["via"] for s in sites})
         via = "+".join(vias) or "unknown"
         sig = "missed-read:%s:%s" % (syntax, via)
+        if "alias-assignment" in vias and rebinding_features(case["e"]):
+            sig += ":" + "+".join(rebinding_features(case["e"]))
         if vias == ["direct"]:
             aks = sorted({{"computed-variable-key": "computed-member-access:variable-key",
                            "computed-expression-key": "computed-member-access:expression-key"}.get(s["ak"], s["ak"])
@@ -305,7 +352,8 @@ def judge(ctx, case, variant, text, lib, full_js, node, res):
     if "raise" in res:
         if not node["ok"]:
             return True  # the statement only constrains expressions that evaluate
-        feats = raise_features(case["e"])
+        # a computed / numeric index on a tracked name names the crash site; otherwise how an alias is re-bound
+        feats = raise_features(case["e"]) or rebinding_features(case["e"])
         sig = "raises:%s:%s:%s" % (syntax, "+".join(feats) or "no-computed-access", res["raise"])
         ctx.violation(sig, detail, "resolve_dependencies(%r, %s) raises %s: %s (node evaluates it, reading %s)" % (
             text, mode, res["raise"], res.get("msg", ""), sorted(case["reads"])))
@@ -320,7 +368,12 @@ def judge(ctx, case, variant, text, lib, full_js, node, res):
     return True
 
 
-def evaluate(ctx, heap, cases, strict_spec=True):
+# quick tier: the expressionLib rendering only for the classes where the function matters for the verdict
+LIB_CLASSES_QUICK = {"closure", "function-argument", "shadowing-parameter-gets-inputs", "shadow-then-use",
+                     "nested-closure-over-parameter", "nested-argument-inner"}
+
+
+def evaluate(ctx, heap, cases, strict_spec=True, lib_all=True):
     """Render, ask node, validate the specification, bind to the real code.  -> statistics."""
     jobs_node, plans = [], []
     for i, c in enumerate(cases):
@@ -328,7 +381,7 @@ def evaluate(ctx, heap, cases, strict_spec=True):
         plans.append((i, "inline", text, None, len(jobs_node)))
         jobs_node.append({"frags": frags})
         lv = lib_variant(c["e"], heap)
-        if lv:
+        if lv and (lib_all or c["c"] in LIB_CLASSES_QUICK):
             lib, ltext, lfrag = lv
             plans.append((i, "expressionLib", ltext, lib, len(jobs_node)))
             jobs_node.append({"frags": [lfrag], "lib": "\n".join(lib)})
@@ -394,17 +447,16 @@ def run(ctx):
         return _bind(ctx, gen)
     wd = ctx.spec_workdir("ExprDeps")
     cfg = open(os.path.join(wd, "MC_ExprDeps.cfg")).read().replace("LEVEL = 1", "LEVEL = %d" % level)
-    r = ctx.tlc("ExprDeps", "MC_ExprDeps", "MC_ExprDeps.cfg", workdir=wd, files={"MC_ExprDeps.cfg": cfg}, timeout=ctx.pick(1500, 5400))
-    # a law of the specification failing is a specification error, not a verdict on the code
-    ctx.require(r.ok, "ExprDeps law %s fails in the model: %s" % (r.violated, (r.trace or [{}])[0]))
-    out = os.path.join(wd, "cases.json")
-    gcfg = open(os.path.join(wd, "Gen_ExprDeps.cfg")).read().replace("LEVEL = 1", "LEVEL = %d" % level)
-    g = ctx.tlc("ExprDeps", "Gen_ExprDeps", "Gen_ExprDeps.cfg", workdir=wd, files={"Gen_ExprDeps.cfg": gcfg},
-                env={"OUT_FILE": out}, workers=1, count=False, timeout=ctx.pick(1500, 5400))
-    ctx.require(g.ok and os.path.exists(out), "Gen_ExprDeps failed: %s" % g.stdout[-800:])
-    with open(out) as f:
-        gen = json.load(f)
-    ctx.require(len(gen["cases"]) == r.distinct, "generation emitted %d cases, the model check saw %d" % (len(gen["cases"]), r.distinct))
+    # one TLC run: the laws are asserted on every expression and the cases are printed by the same invariant
+    # (a law of the specification failing is a specification error = machinery error, not a verdict on the code)
+    r = ctx.tlc("ExprDeps", "MC_ExprDeps", "MC_ExprDeps.cfg", workdir=wd, files={"MC_ExprDeps.cfg": cfg},
+                timeout=ctx.pick(1500, 5400))
+    ctx.require(r.ok, "ExprDeps law fails in the model: %s %s" % (r.error, r.violated))
+    printed = r.printed_json()
+    heaps = [x["heap"] for x in printed if isinstance(x, dict) and "heap" in x]
+    gen = {"heap": heaps[0] if heaps else None, "cases": [x for x in printed if isinstance(x, dict) and "e" in x and "sites" in x]}
+    ctx.require(gen["heap"] is not None and len(gen["cases"]) == r.distinct,
+                "emission incomplete: %d cases printed, the model check saw %d" % (len(gen["cases"]), r.distinct))
     if cache:
         with open(cache, "w") as f:
             json.dump(dict(gen, level=level), f)
@@ -418,7 +470,7 @@ def _bind(ctx, gen):
     cases.sort(key=lambda c: json.dumps(c["e"], sort_keys=True))
     ctx.exhaustive = True
     ctx.programs = len(cases)
-    plans, node, bad = evaluate(ctx, heap, cases)
+    plans, node, bad = evaluate(ctx, heap, cases, lib_all=not ctx.quick)
     for k in (0, len(plans) // 3, 2 * len(plans) // 3):
         i, variant, text, lib, j = plans[k]
         ctx.sample({"class": cases[i]["c"], "text": text, "expression_lib": lib, "spec_reads": sorted(cases[i]["reads"]),
